@@ -4,14 +4,15 @@ from itertools import permutations, product
 from mc.gen.dags import subsets
 from mc.ref.discrete import posterior
 
-VE_LIKS = {2: [(1, 0.5), (0.25, 0.75), (0, 1)], 3: [(1, 0.5, 0.25), (0, 1, 1)], 1: [(0.5,)], 4: [(1, 0.5, 0.25, 0)]}
+# likelihood vectors: inside [0,1], with a zero, and NOT normalised with entries above 1 (only the ratios matter)
+VE_LIKS = {2: [(1, 0.5), (0.25, 0.75), (0, 1), (3, 1)], 3: [(1, 0.5, 0.25), (0, 1, 1), (1, 3, 2)], 1: [(0.5,)], 4: [(1, 0.5, 0.25, 0)]}
 
 
 def questions(ref, joint, qmax=None, emax=None, orders=True, virt=0, full_states=True):
     """yield dict(q=[ids], e=[(id,state) ordered], virt=[(id, lik)], post=RefFactor, pe=Fraction)
     for every non-empty query set, every disjoint evidence set, every ordering
     of the evidence, every evidence state vector with P(e)>0, and (virt=1)
-    every single virtual evidence on a non-evidence variable."""
+    every single virtual evidence and every ordered pair of virtual evidences on non-evidence variables."""
     from fractions import Fraction as F
 
     n = ref.n
@@ -29,6 +30,12 @@ def questions(ref, joint, qmax=None, emax=None, orders=True, virt=0, full_states
                             continue
                         for lik in VE_LIKS[ref.card[v]]:
                             virts.append([(v, lik)])
+                    # two virtual evidences in one question (virtual evidence on one variable can make another one relevant)
+                    free = [v for v in range(n) if v not in ev]
+                    for a in free:
+                        for b in free:
+                            if a != b:
+                                virts.append([(a, VE_LIKS[ref.card[a]][0]), (b, VE_LIKS[ref.card[b]][-1] if ref.card[b] > 1 else VE_LIKS[1][0])])
                 for vl in virts:
                     soft = [(v, [F(x) for x in lik]) for v, lik in vl]
                     post, pe = posterior(joint, list(q), ev, soft)
